@@ -1,7 +1,13 @@
 // Harness for property C15: calculated structure factors obey symmetry; direct and FFT routes agree.
 // The oracle is the textbook sum evaluated independently in long double.
 #include "hcommon.hpp"
+#include <gemmi/addends.hpp>
+#include <gemmi/model.hpp>
+#include <gemmi/small.hpp>
+// the per-element cache (scattering_factors_) is private: the sfseq command reads its occupancy
+#define private public
 #include <gemmi/sfcalc.hpp>
+#undef private
 #include <gemmi/dencalc.hpp>
 #include <gemmi/fourier.hpp>
 #include <gemmi/it92.hpp>
@@ -317,6 +323,37 @@ static std::string handle(const std::string& cmd, const std::string& args) {
   std::vector<std::string> w = words(args);
   const SpaceGroup& sg = spacegroup_tables::main[to_ll(w.at(0))];
   Lcg rng((unsigned long long) to_ll(w.at(1)));
+  if (cmd == "sfseq") {
+    // model correspondence for the per-element form-factor cache (Sfc/SfCache.v).
+    // args: table ignore_charge stol2_milli el:charge ...  -> per call T/F (the returned value is, bit for bit, the
+    // table value of (el, charge) at this stol2 plus the addend of el) ":" the filled cache slots after the call
+    IT92<double>::ignore_charge = to_ll(w.at(1)) != 0;
+    // a reflection with the requested (sin theta / lambda)^2: stol2 = h^2 / (4 a^2) for h = 1
+    double stol2 = to_ll(w.at(2)) / 1000.0;
+    UnitCell cell(stol2 > 0 ? std::sqrt(1 / (4 * stol2)) : 10., 10, 10, 90, 90, 90);
+    StructureFactorCalculator<IT92<double>> calc(cell);
+    for (int z = 1; z < 99; ++z) calc.addends.set(Element(z), 0.01f * (float) (z % 7) - 0.02f);
+    calc.set_stol2_and_scattering_factors(Miller{{stol2 > 0 ? 1 : 0, 0, 0}});
+    std::string out;
+    std::vector<int> els;
+    for (size_t i = 3; i < w.size(); ++i) {
+      size_t c = w[i].find(':');
+      int z = (int) to_ll(w[i].substr(0, c)), ch = (int) to_ll(w[i].substr(c + 1));
+      if (std::find(els.begin(), els.end(), z) == els.end()) els.push_back(z);
+      Element el(z);
+      double got = calc.get_scattering_factor(el, (signed char) ch);
+      double want = IT92<double>::get(el.elem, (signed char) ch).calculate_sf(calc.stol2_) + calc.addends.get(el);
+      if (want == 0.) { IT92<double>::ignore_charge = true; return "skip"; }   // the zero value is the cache's empty mark
+      out += (out.empty() ? "" : " ") + std::string(got == want ? "T" : "F") + ":";
+      std::vector<int> sorted = els;
+      std::sort(sorted.begin(), sorted.end());
+      bool first = true;
+      for (int e : sorted)
+        if (calc.scattering_factors_[Element(e).ordinal()] != 0.) { out += (first ? "" : ",") + std::to_string(e); first = false; }
+    }
+    IT92<double>::ignore_charge = true;
+    return out;
+  }
   if (cmd == "o_direct") {
     // args: row seed natoms aniso table hmax charges
     int natoms = (int) to_ll(w.at(2)); bool aniso = to_ll(w.at(3)) != 0; int table = (int) to_ll(w.at(4));
